@@ -6,11 +6,16 @@
 import json, os, subprocess, sys, shutil, re
 prop, n = sys.argv[1], sys.argv[2]
 extra = []
+wave = ""
 for a in sys.argv[3:]:
     if a.startswith("--props"):
         extra = a.split("=", 1)[1].split(",")
-src = "/tmp/seed_%s/out/%s" % (prop, n)
-wt = "/tmp/wt_eval_%s_%s" % (prop, n)
+    if a.startswith("--wave"):
+        wave = a.split("=", 1)[1]
+src = "/tmp/seed%s_%s/out/%s" % (wave, prop, n)
+if not os.path.exists(src):
+    src = "/var/tmp/seed_out/seed%s_%s/out/%s" % (wave, prop, n)
+wt = "/tmp/wt_eval_%s_%s%s" % (prop, n, wave)
 env = dict(os.environ, CARGO_TARGET_DIR=wt + "/target", CARGO_NET_OFFLINE="true")
 def sh(cmd, cwd=None, timeout=1800):
     p = subprocess.run(cmd, shell=True, cwd=cwd, env=env, capture_output=True, text=True, timeout=timeout)
@@ -70,7 +75,7 @@ finally:
     sh("git -C /repo checkout -- .")
 res["checks"] = checks
 res["caught_by"] = [p for p, c in checks.items() if c["exit"] == 1]
-d = "/verif/seeded/%s-%s" % (prop, n)
+d = "/verif/seeded/%s-%s%s" % (prop, n, wave)
 if confirmed:
     os.makedirs(d, exist_ok=True)
     shutil.copy(use, d + "/patch.diff")
